@@ -302,6 +302,7 @@ void libxmp_load_prologue(struct context_data *ctx)
 	m->c4rate = C4_PAL_RATE;
 	m->volbase = 0x40;
 	m->gvol = m->gvolbase = 0x40;
+	m->mvol = m->mvolbase = 0;
 	m->vol_table = NULL;
 	m->quirk = 0;
 	m->flow_mode = FLOW_MODE_GENERIC;
